@@ -239,15 +239,9 @@ func (s *server) cleanupPreviousSession(previousSession *syncSession) {
 	if previousSession.partCtx == nil {
 		return
 	}
-	if previousSession.partCtx.Handler != nil {
-		if finishErr := previousSession.partCtx.Handler.FinishSync(); finishErr != nil {
-			if s.metrics != nil {
-				op, grp, sn, sr, st := s.resolveSessionLabels(previousSession)
-				s.metrics.totalErr.Inc(1, op, grp, sn, sr, st, "finish_sync_err")
-			}
-			s.log.Error().Err(finishErr).Str("session_id", previousSession.sessionID).Msg("failed to finish sync for previous session")
-		}
-	}
+	// A session that reached handleCompletion has already finished its part and cleared the handler.
+	// Anything still attached here belongs to a session that was abandoned before completion: its part is
+	// incomplete and must be discarded (Close), never installed (FinishSync).
 	if closeErr := previousSession.partCtx.Close(); closeErr != nil {
 		s.log.Error().Err(closeErr).Str("session_id", previousSession.sessionID).Msg("failed to close previous session partCtx")
 	}
@@ -297,7 +291,8 @@ func (s *server) processChunkSequential(stream clusterv1.ChunkedSyncService_Sync
 		return s.sendResponse(stream, req, clusterv1.SyncStatus_SYNC_STATUS_CHUNK_OUT_OF_ORDER, errMsg, nil)
 	}
 
-	return s.processExpectedChunk(stream, session, req)
+	_, processErr := s.processExpectedChunk(stream, session, req)
+	return processErr
 }
 
 func (s *server) processChunkWithReordering(stream clusterv1.ChunkedSyncService_SyncPartServer, session *syncSession, req *clusterv1.SyncPartRequest) error {
@@ -309,8 +304,14 @@ func (s *server) processChunkWithReordering(stream clusterv1.ChunkedSyncService_
 	buffer.lastActivity = time.Now()
 
 	if req.ChunkIndex == buffer.expectedIndex {
-		if processErr := s.processExpectedChunk(stream, session, req); processErr != nil {
+		accepted, processErr := s.processExpectedChunk(stream, session, req)
+		if processErr != nil {
 			return processErr
+		}
+		if !accepted {
+			// The chunk was rejected (e.g. checksum mismatch) and the sender has been told so.
+			// Keep waiting for the same index, otherwise the retry would be dropped as a duplicate.
+			return nil
 		}
 		buffer.expectedIndex++
 
@@ -378,7 +379,10 @@ func (s *server) processChunkWithReordering(stream clusterv1.ChunkedSyncService_
 	return nil
 }
 
-func (s *server) processExpectedChunk(stream clusterv1.ChunkedSyncService_SyncPartServer, session *syncSession, req *clusterv1.SyncPartRequest) error {
+// processExpectedChunk validates and applies the chunk the session is waiting for. It reports whether the
+// chunk was accepted: a rejected chunk (checksum mismatch, server busy) has been answered with the matching
+// status but must not advance the session.
+func (s *server) processExpectedChunk(stream clusterv1.ChunkedSyncService_SyncPartServer, session *syncSession, req *clusterv1.SyncPartRequest) (bool, error) {
 	calculatedChecksum := fmt.Sprintf("%x", crc32.ChecksumIEEE(req.ChunkData))
 	if calculatedChecksum != req.ChunkChecksum {
 		errMsg := fmt.Sprintf("chunk %d checksum mismatch: expected %s, got %s",
@@ -388,7 +392,7 @@ func (s *server) processExpectedChunk(stream clusterv1.ChunkedSyncService_SyncPa
 			op, grp, sn, sr, st := s.resolveSessionLabels(session)
 			s.metrics.totalErr.Inc(1, op, grp, sn, sr, st, "checksum_mismatch")
 		}
-		return s.sendResponse(stream, req, clusterv1.SyncStatus_SYNC_STATUS_CHUNK_CHECKSUM_MISMATCH, errMsg, nil)
+		return false, s.sendResponse(stream, req, clusterv1.SyncStatus_SYNC_STATUS_CHUNK_CHECKSUM_MISMATCH, errMsg, nil)
 	}
 
 	session.totalReceived += uint64(len(req.ChunkData))
@@ -397,13 +401,13 @@ func (s *server) processExpectedChunk(stream clusterv1.ChunkedSyncService_SyncPa
 	var topic bus.Topic
 	t, ok := data.TopicMap[session.metadata.Topic]
 	if !ok {
-		return fmt.Errorf("unknown sync topic: %s", session.metadata.Topic)
+		return false, fmt.Errorf("unknown sync topic: %s", session.metadata.Topic)
 	}
 	topic = t
 
 	handler, exists := s.chunkedSyncHandlers[topic]
 	if !exists {
-		return fmt.Errorf("no handler registered for topic %s", topic)
+		return false, fmt.Errorf("no handler registered for topic %s", topic)
 	}
 
 	for partIndex, partInfo := range req.PartsInfo {
@@ -412,7 +416,7 @@ func (s *server) processExpectedChunk(stream clusterv1.ChunkedSyncService_SyncPa
 
 		if createNewContext && session.partCtx != nil && session.partCtx.Handler != nil {
 			if finishErr := session.partCtx.Handler.FinishSync(); finishErr != nil {
-				return fmt.Errorf("failed to complete part %d: %w", session.partCtx.ID, finishErr)
+				return false, fmt.Errorf("failed to complete part %d: %w", session.partCtx.ID, finishErr)
 			}
 		}
 
@@ -434,7 +438,7 @@ func (s *server) processExpectedChunk(stream clusterv1.ChunkedSyncService_SyncPa
 			}
 			partHandler, createErr := handler.CreatePartHandler(session.partCtx)
 			if createErr != nil {
-				return fmt.Errorf("failed to create part handler: %w", createErr)
+				return false, fmt.Errorf("failed to create part handler: %w", createErr)
 			}
 			session.partCtx.Handler = partHandler
 		} else if session.partCtx.PartType != partInfo.PartType {
@@ -448,13 +452,13 @@ func (s *server) processExpectedChunk(stream clusterv1.ChunkedSyncService_SyncPa
 			session.partCtx.MaxKey = partInfo.MaxKey
 			session.partCtx.PartType = partInfo.PartType
 			if newPartErr := session.partCtx.Handler.NewPartType(session.partCtx); newPartErr != nil {
-				return fmt.Errorf("failed to new part type: %w", newPartErr)
+				return false, fmt.Errorf("failed to new part type: %w", newPartErr)
 			}
 		}
 
 		if processErr := s.processPart(session, req, partInfo, partIndex, handler); processErr != nil {
 			if errors.Is(processErr, queue.ErrServerBusy) {
-				return s.sendResponse(stream, req, clusterv1.SyncStatus_SYNC_STATUS_SERVER_BUSY,
+				return false, s.sendResponse(stream, req, clusterv1.SyncStatus_SYNC_STATUS_SERVER_BUSY,
 					"receiver under memory pressure, retry later", nil)
 			}
 			s.log.Error().Err(processErr).
@@ -466,11 +470,11 @@ func (s *server) processExpectedChunk(stream clusterv1.ChunkedSyncService_SyncPa
 				op, grp, sn, sr, st := s.resolveSessionLabels(session)
 				s.metrics.totalErr.Inc(1, op, grp, sn, sr, st, "part_failed")
 			}
-			return processErr
+			return false, processErr
 		}
 	}
 
-	return s.sendResponse(stream, req, clusterv1.SyncStatus_SYNC_STATUS_CHUNK_RECEIVED, "", nil)
+	return true, s.sendResponse(stream, req, clusterv1.SyncStatus_SYNC_STATUS_CHUNK_RECEIVED, "", nil)
 }
 
 func (s *server) processBufferedChunks(stream clusterv1.ChunkedSyncService_SyncPartServer, session *syncSession) error {
@@ -488,8 +492,14 @@ func (s *server) processBufferedChunks(stream clusterv1.ChunkedSyncService_SyncP
 					Msg("processing buffered chunk")
 			}
 
-			if processErr := s.processExpectedChunk(stream, session, chunk); processErr != nil {
+			accepted, processErr := s.processExpectedChunk(stream, session, chunk)
+			if processErr != nil {
 				return processErr
+			}
+			if !accepted {
+				// Rejected buffered chunk: it has been dropped from the buffer and the sender notified;
+				// keep expecting the same index.
+				break
 			}
 			buffer.expectedIndex++
 		} else {
@@ -583,6 +593,28 @@ func (s *server) processPart(session *syncSession, req *clusterv1.SyncPartReques
 }
 
 func (s *server) handleCompletion(stream clusterv1.ChunkedSyncService_SyncPartServer, session *syncSession, req *clusterv1.SyncPartRequest) error {
+	// The part may only be installed when every chunk the sender announces has been applied. A chunk that
+	// was rejected, lost or is still waiting in the reorder buffer leaves the part incomplete: fail the
+	// stream (the deferred Close discards the part) so that the sender keeps its copy and retries.
+	// A completion that announces no totals (TotalChunks and TotalBytesSent both zero) cannot be checked
+	// against the session counters; only the reorder buffer is inspected then.
+	completion := req.GetCompletion()
+	var buffered int
+	if session.chunkBuffer != nil {
+		buffered = len(session.chunkBuffer.chunks)
+	}
+	announced := completion.GetTotalChunks() != 0 || completion.GetTotalBytesSent() != 0
+	mismatch := announced &&
+		(completion.GetTotalChunks() != session.chunksReceived || completion.GetTotalBytesSent() != session.totalReceived)
+	if buffered > 0 || mismatch {
+		if s.metrics != nil {
+			op, grp, sn, sr, st := s.resolveSessionLabels(session)
+			s.metrics.totalErr.Inc(1, op, grp, sn, sr, st, "incomplete")
+		}
+		return fmt.Errorf("incomplete sync session %s: sender announced %d chunks / %d bytes, applied %d chunks / %d bytes, %d chunks still buffered",
+			session.sessionID, completion.GetTotalChunks(), completion.GetTotalBytesSent(), session.chunksReceived, session.totalReceived, buffered)
+	}
+
 	if session.partCtx != nil && session.partCtx.Handler != nil {
 		if finishErr := session.partCtx.Handler.FinishSync(); finishErr != nil {
 			if s.metrics != nil {
